@@ -16,6 +16,7 @@
 import LiteFSVerif.Proofs.Protocol
 import LiteFSVerif.Props.C09
 import LiteFSVerif.Gen.Facts
+import LiteFSVerif.Proofs.ApplyBytes
 
 namespace LiteFSVerif.C06
 open LiteFSVerif LiteFSVerif.Cks LiteFSVerif.Cluster LiteFSVerif.Protocol LiteFSVerif.Engine
@@ -166,5 +167,48 @@ theorem C06_reject_unchanged_engine (s : Eng) (self : Nat) (f : LTXFile) (hdb : 
 /-- premises are satisfiable: a two-node world where the second node is behind on the chain -/
 example : ∃ w : World Nat, w = run (fun x => x.toUInt64) (init 0 2) [.commit 0 (· + 1), .commit 0 (· + 1), .send 0 1 0] ∧
     (w.nodes.map (·.pos.1)) = [2, 1] := ⟨_, rfl, by decide⟩
+
+
+/-- engine, byte level: a snapshot replaces, it does not patch.  If the page frames of a file
+    cover every byte below `commit * pageSize` (what a snapshot holds: every page of the image —
+    beyond 1 GiB all but the lock page, for which `hcover` would have to be weakened), then the
+    database file after a successful apply is the same whatever two replicas held before — stale,
+    divergent, longer, shorter or empty — as long as they use the same page size. -/
+theorem C06_snapshot_replaces_any_state (a a' b b' : Engine.Eng) (f : Engine.LTXFile) (fa fb : Bool)
+    (ha : Engine.applyLTX a f fa = .ok a') (hb : Engine.applyLTX b f fb = .ok b') (hc : f.commit > 0)
+    (hps : (if a.pageSize = 0 then f.pageSize else a.pageSize) = (if b.pageSize = 0 then f.pageSize else b.pageSize))
+    (hcover : ∀ i, i < f.commit * (if a.pageSize = 0 then f.pageSize else a.pageSize) →
+      ∃ p ∈ f.pages, (p.1 - 1) * (if a.pageSize = 0 then f.pageSize else a.pageSize) ≤ i ∧
+        i < (p.1 - 1) * (if a.pageSize = 0 then f.pageSize else a.pageSize) + (if a.pageSize = 0 then f.pageSize else a.pageSize)) :
+    a'.dbFile = b'.dbFile := by
+  obtain ⟨da, h1, h2, _, h4, h5⟩ := Engine.applyLTX_bytes a a' f fa ha hc
+  obtain ⟨db, g1, g2, _, g4, g5⟩ := Engine.applyLTX_bytes b b' f fb hb hc
+  have hpe : a'.pageSize = b'.pageSize := by rw [h2, g2, hps]
+  have hsz : da.size = db.size := by rw [h4, g4, hpe]
+  rw [h1, g1]
+  congr 1
+  apply ByteArray.ext_getElem hsz
+  intro i hi hi'
+  have e1 := h5 i hi
+  have e2 := g5 i hi'
+  rw [BA.getD_lt hi] at e1
+  rw [BA.getD_lt hi'] at e2
+  rw [e1, e2, ← hpe]
+  apply Engine.byteAfterFrom_covered
+  rw [h2]
+  apply hcover
+  rw [h4, h2] at hi
+  exact hi
+
+/-- engine, byte level: an incremental file changes only the bytes its page frames cover -/
+theorem C06_incremental_touches_only_its_pages (s s' : Engine.Eng) (f : Engine.LTXFile) (fatal : Bool)
+    (h : Engine.applyLTX s f fatal = .ok s') (hc : f.commit > 0) (i : Nat)
+    (hi : i < f.commit * s'.pageSize)
+    (hunc : ∀ p ∈ f.pages, ¬ ((p.1 - 1) * s'.pageSize ≤ i ∧ i < (p.1 - 1) * s'.pageSize + s'.pageSize)) :
+    BA.getD (Engine.dbBytes s') i = BA.getD (Engine.dbBytes s) i := by
+  obtain ⟨d, h1, _, _, h4, h5⟩ := Engine.applyLTX_bytes s s' f fatal h hc
+  have : Engine.dbBytes s' = d := by unfold Engine.dbBytes; rw [h1]; rfl
+  rw [this, h5 i (by rw [h4]; exact hi)]
+  exact Engine.byteAfterFrom_uncovered _ _ _ _ hunc
 
 end LiteFSVerif.C06
